@@ -187,6 +187,15 @@ def impossible_in_every_model(ref: RG, ev) -> tuple[bool, list]:
                 if all(find(("v", p, w1)) == find(("v", p, w2)) for p in pm[v]):
                     if union(("v", v, w1), ("v", v, w2), f"{v} has equal parent values in worlds {w1} and {w2}"):
                         changed = True
+    def same(name, w1, w2):
+        """Are V in world w1 and V in world w2 forced equal?  None when a world is outside the closure."""
+        w1 = tuple(sorted((i, bool(s)) for i, s in w1))
+        w2 = tuple(sorted((i, bool(s)) for i, s in w2))
+        if w1 not in worlds or w2 not in worlds:
+            return None
+        return find(("v", name, w1)) == find(("v", name, w2))
+
+    impossible_in_every_model.last_same = same
     for v in names["nodes"]:
         if find(const(v, True)) == find(const(v, False)):
             return True, derivation
@@ -325,15 +334,37 @@ def _reset_facts():
     FACTS.update(pillow_plus=False, same_base_district=False, line9_extra=False, lines=set())
 
 
-def observed_equals_other_worlds_setting(ev) -> bool:
+def observed_equals_other_worlds_setting(ev, ref=None) -> bool:
     """Some variable is observed (in a world that does not set it) at exactly the value another world of the
     event sets it to: Lemma 24 would merge its children across the two worlds, y0's make_counterfactual_graph
     does not (an intervened copy never 'has the same confounders' as the observed one)."""
     settings = {(i, bool(s)) for _, w, _ in ev for i, s in w}
+    worlds = {tuple(map(tuple, w)) for _, w, _ in ev} | {()}
+    confounded = {x.name for e in ref.B for x in e} if ref is not None else None
     for n, w, v in ev:
         if n not in {i for i, _ in w} and (n, bool(v)) in settings:
-            return True
+            # the merge is only missed when the observed copy has bidirected neighbours that the intervened copy
+            # lacks: the variable is confounded in G, or it is stitched to its copies in two or more other worlds
+            if confounded is None or n in confounded:
+                return True
+            # ... or some other world changes n itself (sets a proper ancestor of n without setting n), so that the
+            # observed copy stays stitched to a copy it cannot be merged with
+            anc = {a.name for a in ref.ancestors_inclusive({x for x in ref.V if x.name == n})} - {n}
+            for w2 in worlds:
+                names2 = {i for i, _ in w2}
+                if n not in names2 and names2 & anc:
+                    return True
     return False
+
+
+def _set_closure(ref, ev):
+    FACTS["same_fn"] = None
+    try:
+        if valid_event(ref, ev):
+            impossible_in_every_model(ref, ev)
+            FACTS["same_fn"] = impossible_in_every_model.last_same
+    except Exception:  # noqa: BLE001
+        pass
 
 
 def classify_idstar(kind):
@@ -348,12 +379,28 @@ def classify_idstar(kind):
     return None
 
 
+def _distinct_same_base_pair(nodes) -> bool:
+    """Is there a pair of nodes with one base that the top-level event does NOT force to be the same random
+    variable?  (Two copies that are forced equal should have been merged by make_counterfactual_graph; their
+    collision is then not the listed key-collision mechanism but a missed merge.)"""
+    same = FACTS.get("same_fn")
+    by_base: dict = {}
+    for n in nodes:
+        by_base.setdefault(n.name, []).append(sorted([i.name, bool(i.star)] for i in getattr(n, "interventions", ()) or ()))
+    for name, ws in by_base.items():
+        for w1, w2 in itt.combinations(ws, 2):
+            verdict = same(name, w1, w2) if same else None
+            if verdict is None or verdict is False:
+                return True
+    return False
+
+
 def _post_events_of_district(snap, res, graph, district, event):
     from y0.algorithm.identify.cg import value_of_self_intervention
 
     FACTS["lines"].add("line6")
     bases = [n.get_base() for n in district]
-    if len(bases) != len(set(bases)):
+    if len(bases) != len(set(bases)) and _distinct_same_base_pair(district):
         FACTS["same_base_district"] = True
     pillow = graph.get_markov_pillow(district)
     if {p.get_base() for p in pillow} & set(bases):
@@ -379,8 +426,9 @@ def _post_conflicts(snap, res, cf_graph, event):
         FACTS["lines"].add("line8")
         return
     FACTS["lines"].add("line9")
-    live = [n.get_base() for n in cf_graph.nodes() if is_not_self_intervened(n)]
-    if len(live) != len(set(live)):
+    live_nodes = [n for n in cf_graph.nodes() if is_not_self_intervened(n)]
+    live = [n.get_base() for n in live_nodes]
+    if len(live) != len(set(live)) and _distinct_same_base_pair(live_nodes):
         FACTS["same_base_district"] = True  # line 9 builds one joint over the *bases*: Y_x and Y collapse
     ev_bases = {k.get_base() for k in event}
     for n in cf_graph.nodes():
@@ -395,8 +443,10 @@ def _pre_idstar(graph, event, *, _number_recursions=0):
         return None
     _reset_facts()
     ev = gev.from_event(event)
-    FACTS["observed_equals_setting"] = observed_equals_other_worlds_setting(ev)
-    return {"ref": RG.from_nx(graph), "ev": ev, "fz": freeze_graph(graph), "efz": freeze_value(event)}
+    ref0 = RG.from_nx(graph)
+    _set_closure(ref0, ev)
+    FACTS["observed_equals_setting"] = observed_equals_other_worlds_setting(ev, ref0)
+    return {"ref": ref0, "ev": ev, "fz": freeze_graph(graph), "efz": freeze_value(event)}
 
 
 def _finish_idstar(snap, res, exc, graph, event):
@@ -511,7 +561,8 @@ def _pre_idcstar(graph, outcomes, conditions, *, _number_recursions=0):
         return None
     _reset_facts()
     out, cond = gev.from_event(outcomes), gev.from_event(conditions)
-    FACTS["observed_equals_setting"] = observed_equals_other_worlds_setting(out + cond)
+    FACTS["observed_equals_setting"] = observed_equals_other_worlds_setting(out + cond, RG.from_nx(graph))
+    _set_closure(RG.from_nx(graph), out + cond)
     FACTS["plus_condition"] = any(c[2] for c in cond)
     FACTS["n_conditions"] = len(cond)
     FACTS["reflexive_event_variable"] = any(c[0] in {i for i, _ in c[1]} for c in out + cond)
